@@ -32,6 +32,8 @@ def realize(spec):
         return np.void(bytes.fromhex(spec["v"]))
     if t == "void0":  # the same opaque scalar, handed over as a 0-d array (h5py stores both identically)
         return np.asarray(np.void(bytes.fromhex(spec["v"])))
+    if t == "cmp0":  # compound scalar with one u1 field
+        return np.array((int(spec["v"], 16),), dtype=[("level", "u1")])[()]
     if t == "arr":
         return np.array(spec["v"], dtype=spec["dt"])
     if t == "empty":
